@@ -19,14 +19,16 @@ CLAIMS = {
          "Allocation sites inside build_pl/make_parse/error_recovery are not under contract (their unwinding branch is)."),
  "C10": ("proof", "5 C10 / 9", "First region of yaep_read_grammar (cut out mechanically on every run, rule R5) under contract with the terminal loop closed by an invariant: the object is switched to, emptied and marked "
          "undefined before the first callback; every error exit of the region leaves it undefined and its code names a defect that was really delivered (witness conditions); no defect is missed on the normal path. "
-         "Rule intake, nullable/productive/reachable flags and the loop check are not under contract yet (listed as unverified).",
-         "Only the terminal-intake region is covered; symbol-table lookups answer 'found' iff added before (assumed, C19)."),
+         "Rule intake, flags and verdicts are decided in bounded form by native exhaustive stand-ins on the real code (every grammar of a small space against a least-fixpoint specification; "
+         "every combination of the documented intake defects), labelled bounded and not counted as proved.",
+         "Contracts cover the terminal-intake region only; symbol-table lookups answer 'found' iff added before (assumed, C19)."),
  "C11": ("proof", "5 C11 / 9", "The hand-written lexer under contract with all five loops closed (cursor never passes the terminating NUL, token kinds by first character, number and line arithmetic), "
          "yaep_parse_grammar's protocol (object switched to first, failure code returned, intermediate form released once, otherwise exactly yaep_read_grammar's result), the replay callbacks. "
-         "Code assignment (tail of set_sgrammar) is a bounded set.", "The bison automaton and its actions are not covered; token text accumulation is a stated drop in the lexer set."),
+         "Code assignment (tail of set_sgrammar) is a bounded set; the bison actions are covered in bounded form by a native differential stand-in (description text against the callback-defined twin).",
+         "The bison automaton is not under contract; token text accumulation is a stated drop in the lexer set."),
  "C13": ("proof", "5 C13 / 9", "Tree-node constructors under contract: place_translation and copy_anode request blocks of exactly the node size (+ child slots) from parse_alloc and write only them; "
-         "storage-layer copies of names. yaep_free_tree and the pruning release loop are bounded/native only.",
-         "Pairing of parse_alloc/parse_free over a whole yaep_parse is a fact about make_parse and is not covered."),
+         "symb_add_term copies the name into the grammar's storage (different object, equal bytes). yaep_free_tree and the whole-parse ownership statement are native exhaustive stand-ins (bounded).",
+         "Pairing of parse_alloc/parse_free over a whole yaep_parse is a fact about make_parse: bounded native stand-in only."),
  "C04": ("proof", "5 C04 / 9", "prune_to_minimal base cases full-domain (leaf costs 0; an already processed shared node reports its recorded total), copy_anode copies the cost, "
          "traverse_pruned_translation restores a shared node once (bounded), static fact that make_parse restores the one-parse flag unconditionally.",
          "The recursive cases of prune_to_minimal (sum over children, minimum over alternatives) exceed CBMC's reach in this sandbox (out of memory at 16 GB for one level with two children); composition over the DAG is a paper induction."),
